@@ -371,3 +371,79 @@ def facts_pred(s, block):
                 return False, n
         return True, n
     return pred
+
+
+def tdigest_capacity_field(prog):
+    """the usize field of TDigestMut that `make` initialises to 2k + (30 if k < 30 else 10), whatever it is called;
+    returns (field_name | None, verdict) where verdict is True / False (a usize field initialised from k by another formula) / None"""
+    from .. import formula
+    T = "tdigest::sketch::TDigestMut"
+    mk = fn_one(prog, T, "make")
+    adt = prog.adts.get(T)
+    if mk is None or not adt:
+        return None, None
+    s = Sym(prog, mk)
+    rets = [b.idx for b in mk.blocks if b.term[0] == "return" and not b.cleanup]
+    e = s.at(rets[0]).local(0) if rets else ("unknown",)
+    if e[0] != "agg":
+        return None, None
+    names = [n for n, t in adt["variants"][0]["fields"]]
+    tys = dict((n, t) for n, t in adt["variants"][0]["fields"])
+    wrong = None
+    for n, v in zip(names, e[2]):
+        if tys.get(n) != "usize":
+            continue
+        lv = formula.leaves(v)
+        if not lv or not all(k == (mk.local_name(1) or "k") for k in lv):
+            continue
+        kname = mk.local_name(1) or "k"
+        try:
+            ok = all(formula.evaluate(v, {"@prog": prog, kname: k}) == 2 * k + (30 if k < 30 else 10) for k in (10, 11, 29, 30, 31, 100, 500, 65535))
+        except formula.Uneval:
+            continue
+        if ok:
+            return n, True
+        wrong = n
+    return wrong, (False if wrong else None)
+
+
+def arg_source_name(fn, op, depth=0):
+    """the user-visible local a call argument is a copy of (following plain copies/moves/reborrows of temporaries), or None"""
+    if op[0] not in ("c", "m") or depth > 4:
+        return None
+    pl = op[1]
+    l = pl if isinstance(pl, int) else (pl[0] if all(p[0] == "*" for p in pl[1]) else None)
+    if l is None:
+        return None
+    nm = fn.local_name(l)
+    if nm:
+        return nm
+    sd = fn.single_def(l)
+    if sd and sd[2] == "assign":
+        rv = fn.blocks[sd[0]].stmts[sd[1]][2]
+        if rv[0] == "use":
+            return arg_source_name(fn, rv[1], depth + 1)
+        if rv[0] == "ref" and isinstance(rv[2], int):
+            return fn.local_name(rv[2])
+    return None
+
+
+def swapped_arguments(prog, fns):
+    """in-crate calls in which two arguments of the same type are visibly crossed: the caller passes its local named like
+    parameter j in position i and its local named like parameter i in position j.  yields (fn, block, callee, i, j, names)"""
+    def norm(n):
+        return (n or "").lstrip("_")
+    for f in fns:
+        for b, site in f.calls():
+            tgt = site.get("callee")
+            if tgt not in prog.fns:
+                continue
+            g = prog.fns[tgt]
+            if g.argc != len(site["args"]) or g.argc < 2:
+                continue
+            pn = [norm(g.local_name(i + 1)) for i in range(g.argc)]
+            an = [norm(arg_source_name(f, a)) for a in site["args"]]
+            for i in range(g.argc):
+                for j in range(i + 1, g.argc):
+                    if pn[i] and pn[j] and pn[i] != pn[j] and an[i] == pn[j] and an[j] == pn[i] and g.local_ty(i + 1) == g.local_ty(j + 1):
+                        yield f, b, g, i, j, (pn[i], pn[j])
